@@ -413,9 +413,10 @@ class CachedFcn(UserFcn):
             )
         ):
             return self.lastReturn
+        out = super().__call__(*args, **kwds)
         self.lastArgs = args
         self.lastKwds = kwds
-        self.lastReturn = super().__call__(*args, **kwds)
+        self.lastReturn = out
         return self.lastReturn
 
     def __repr__(self):
